@@ -17,7 +17,10 @@ RULE = (
     "tiny limits; x recv_bytes in {1, 64, 8192}. Oracle: reference parser + refusal contract (no call, exactly one "
     "parseable 400/413/431/501 response with Connection: close, closed, no recv after the read in which the refusal "
     "became decidable, no exception, step budget) + CPU-scaling monitor (thread CPU time at n, 2n, 4n must not grow "
-    "super-linearly). distinct = (family, limit class, L-limit offset or mutation, delivery)"
+    "super-linearly); (f) the refusal contract under the threaded server (Sim): a refused message (400 / 413 / 431 / 501) "
+    "behind 0-2 normal requests, with a bystander connection, under random-walk / PCT schedules and complete "
+    "single-pre-emption neighbourhoods: exactly one complete error response with Connection: close, then EOF, no "
+    "execution. distinct = (family, limit class, L-limit offset or mutation, delivery) / trace hash"
 )
 ASSUMPTIONS = [
     "vf/ref/request.py decides which messages must be refused and with which statuses",
@@ -32,7 +35,8 @@ def required_counters(tier):
         "boundary:-3", "boundary:-2", "boundary:-1", "boundary:0", "boundary:1", "boundary:2", "boundary:3",
         "body-boundary:-1", "body-boundary:0", "body-boundary:1",
         "digits:cl", "digits:chunk", "unterminated", "stops-consuming-checked", "probe:exception-monitor",
-        "scaling:shapes",
+        "scaling:shapes", "sim:runs:random", "sim:runs:pct", "sim:runs:forced", "sim:status:400", "sim:status:413",
+        "sim:status:431", "sim:status:501", "sim:refused-with-response-and-close",
     ]
 
 
@@ -53,6 +57,12 @@ def plan(tier, seed):
     for i in range(n):
         specs.append({"mode": "gen", "seed": seed * 104729 + i, "n": 1500 if tier == "quick" else 8000})
     specs.append({"mode": "probe"})
+    # the refusal contract under the threaded server: every schedule must still produce the error response
+    for i in range(8 if tier == "quick" else 32):
+        specs.append({"mode": "sim-random", "seed": seed * 7727 + i, "n": 100 if tier == "quick" else 1200})
+    for i in range(len(sim_directed())):
+        for p_ in range(4):
+            specs.append({"mode": "sim-enum", "index": i, "part": p_, "parts": 4, "cap": 250 if tier == "quick" else 3000})
     for i in range(len(SCALING_SHAPES)):
         specs.append({"mode": "scaling", "shape": i})
     return specs
@@ -437,9 +447,157 @@ def run_scaling(acc, spec):
     acc.sample({"family": "scaling", "shape": name, "cpu_s": [round(t1, 4), round(t4, 4)]})
 
 
+# ---------------------------------------------------------------- refusal under the threaded server (Sim)
+
+SIM_REFUSALS = {
+    "400": ({}, "POST /bad HTTP/1.1\r\nHost: h\r\nContent-Length: x\r\n\r\n", (400,)),
+    "431": ({"max_request_header_size": 200}, "GET /big HTTP/1.1\r\nHost: h\r\nX-Pad: " + "p" * 220 + "\r\n\r\n", (431,)),
+    "413": ({"max_request_body_size": 50}, "POST /body HTTP/1.1\r\nHost: h\r\nContent-Length: 51\r\n\r\n" + "b" * 51, (413,)),
+    "501": ({}, "POST /te HTTP/1.1\r\nHost: h\r\nTransfer-Encoding: gzip\r\n\r\n", (501,)),
+}
+
+
+def sim_scenario(kind, pre, lookahead, threads, poll, sndbuf, bystander, pieces=None):
+    adj_extra, raw, statuses = SIM_REFUSALS[kind]
+    adj = dict({"threads": threads, "channel_request_lookahead": lookahead, "asyncore_use_poll": poll, "send_bytes": 1}, **adj_extra)
+    reqs = [dict(r) for r in pre] + [{"raw": raw, "refused": True}]
+    c0 = {"requests": reqs, "sndbuf": sndbuf, "read_to_eof": True}
+    if pieces:
+        c0["pieces"] = pieces
+    conns = [c0]
+    if bystander:
+        conns.append({"requests": [{"n": 30, "k": "cl"}, {"n": 700, "k": "write", "w": 100}], "sndbuf": sndbuf, "pingpong": True,
+                      "delay": bystander})
+    return {"adj": adj, "sndbuf": sndbuf, "conns": conns, "m_index": len(pre), "kind": kind}
+
+
+def sim_gen(rng):
+    kind = rng.choice(sorted(SIM_REFUSALS))
+    sndbuf = rng.choice([512, 4096])
+    pre = []
+    for _ in range(rng.choice([0, 1, 1, 2])):
+        pre.append({"n": rng.choice([5, 300, sndbuf + 200, 3 * sndbuf]), "k": rng.choice(["cl", "write", "gen"]), "w": 512})
+    pieces = None
+    if rng.random() < 0.3:
+        pieces = sorted(rng.sample(range(1, 200), 2))
+    return sim_scenario(kind, pre, rng.choice([0, 0, 1, 2]), rng.choice([1, 1, 2]), rng.random() < 0.4, sndbuf,
+                        rng.choice([0, 0.001, 0.01, 0.2]), pieces)
+
+
+def sim_directed():
+    out = []
+    for kind in ("400", "431", "413", "501"):
+        out.append(sim_scenario(kind, [{"n": 1400, "k": "write", "w": 300}], 0, 1, False, 512, 0.001))
+    out.append(sim_scenario("400", [], 0, 1, True, 512, 0.001))
+    out.append(sim_scenario("431", [{"n": 40, "k": "cl"}], 1, 2, False, 4096, 0.001))
+    return out
+
+
+def sim_judge(scn, o):
+    from vf.ref import response as rs
+
+    out = []
+    if o.failed:
+        return [("harness:" + o.failed, "run did not finish: " + o.failed)]
+    w = o.world
+    if not w.io_alive():
+        out.append(("io-thread-died", "the I/O loop thread ended: " + getattr(w, "loop_error", "?")))
+    for t in w.sched.threads:
+        if t.exc is not None and t.role in ("worker", "io"):
+            out.append(("thread-raised:" + t.role, f"{t.name}: {t.exc!r}"))
+    res = o.results[0]
+    c = res.get("client")
+    if c is None:
+        return out + [("harness:client-not-started", "")]
+    cid = res["cid"]
+    m = scn["m_index"]
+    kind = scn["kind"]
+    allowed = SIM_REFUSALS[kind][2]
+    reqs = scn["conns"][0]["requests"]
+    entered = [idx for step, cc, idx, what in o.log.events if what == "enter" and cc == cid]
+    if any(i >= m for i in entered):
+        out.append(("refused-request-executed:" + kind, f"the refused message reached the application (executions {entered})"))
+    resps, werr, left = rs.parse_responses(c.received, [r.get("m", "GET") for r in reqs], eof=c.eof())
+    finals = [r for r in resps if not r["interim"]]
+    if len(finals) <= m or not finals[m].get("complete"):
+        how = "closed without a response" if c.eof() else "client left waiting"
+        out.append(("refusal-without-response:" + kind,
+                    f"no complete error response for the refused message ({how}; {len(finals)} response(s) on the wire, expected {m + 1}; {werr})"))
+    else:
+        r = finals[m]
+        if r["status"] not in allowed:
+            out.append(("refusal-wrong-status:" + kind, f"status {r['status']} for a message that must be refused with {allowed}"))
+        if [v.lower() for k, v in r["headers"] if k.lower() == b"connection"] != [b"close"]:
+            out.append(("refusal-without-connection-close:" + kind, f"error response headers {r['headers']}"))
+        if len(finals) > m + 1 or (werr and left):
+            out.append(("bytes-after-refusal:" + kind, f"{len(finals)} responses / stray bytes after the error response: {werr}"))
+        if not c.eof():
+            out.append(("not-closed-after-refusal:" + kind, "the connection stayed open after the error response"))
+    # the bystander is served
+    if len(scn["conns"]) > 1:
+        rb = o.results[1]
+        if not rb.get("done"):
+            out.append(("bystander-disturbed", "the other connection did not get its responses"))
+    return out
+
+
+def sim_run_one(acc, scn, strat, label):
+    from vf.sim import runner
+
+    o = runner.run_scenario(scn, strat, trace=False, wall_timeout=120)
+    try:
+        vs = sim_judge(scn, o)
+        acc.evaluations += 1
+        acc.count("sim:runs:" + label)
+        acc.count("sim:status:" + scn["kind"])
+        acc.distinct.add("sim|%08x" % (o.trace_hash & 0xFFFFFFFF))
+        if not vs:
+            acc.count("sim:refused-with-response-and-close")
+        for key, what in vs:
+            if key.startswith("harness:"):
+                acc.inconclusive.append(f"{key}: {what} [{strat}]")
+                continue
+            acc.violation(key, what, {"sim_scn": scn, "strat": strat})
+    finally:
+        leaked = runner.finish(o)
+        if leaked:
+            acc.count("leaked_threads", leaked)
+
+
+def run_sim(acc, spec):
+    from vf.sim import runner
+
+    if spec["mode"] == "sim-random":
+        rng = random.Random(spec["seed"])
+        for _ in range(spec["n"]):
+            scn = sim_gen(rng)
+            if rng.random() < 0.6:
+                strat = {"kind": "random", "seed": rng.randrange(1 << 30), "p": rng.choice([0.02, 0.1, 0.3])}
+                label = "random"
+            else:
+                strat = {"kind": "pct", "seed": rng.randrange(1 << 30), "d": 3, "len": rng.choice([1500, 4000])}
+                label = "pct"
+            sim_run_one(acc, scn, strat, label)
+        acc.sample({"family": "sim", "example": sim_gen(random.Random(spec["seed"]))})
+    else:
+        scn = sim_directed()[spec["index"]]
+        o = runner.run_scenario(scn, {"kind": "np"}, pilot=True)
+        points = runner.single_preemptions(o.pilot)
+        runner.finish(o)
+        if spec.get("cap") and len(points) > spec["cap"] * spec["parts"]:
+            points = sorted(random.Random(len(points)).sample(points, spec["cap"] * spec["parts"]))
+            acc.count("sim:enum_capped")
+        for step, tid in points[spec["part"] :: spec["parts"]]:
+            sim_run_one(acc, scn, {"kind": "forced", "switches": {str(step): tid}}, "forced")
+        acc.sample({"family": "sim-enum", "scenario": scn, "single_preemptions": len(points)})
+
+
 def run_shard(spec):
     acc = Acc()
     mode = spec["mode"]
+    if mode.startswith("sim"):
+        run_sim(acc, spec)
+        return acc.out()
     if mode == "boundary":
         run_boundary(acc, spec)
     elif mode == "body":
@@ -472,6 +630,9 @@ def replay(case):
     if "shape" in case:
         idx = [i for i, s in enumerate(SCALING_SHAPES) if s[0] == case["shape"]][0]
         run_scaling(acc, {"shape": idx})
+        return acc.violations
+    if "sim_scn" in case:
+        sim_run_one(acc, case["sim_scn"], case["strat"], "replay")
         return acc.violations
     if case.get("stream") is None:
         return []
